@@ -308,6 +308,15 @@ fn user_item(kind: &str, n: usize) -> Option<syn::Item> {
             let a = id("UserMap");
             parse_quote! { use std::collections::HashMap as #a; }
         }
+        "text" => {
+            // a multi-line string literal whose lines END in blanks / tabs, and a doc line with trailing blanks: the file is
+            // text, "kept token-for-token" includes the value of such a literal
+            let a = id("USER_TEXT_");
+            let src = format!(
+                "/// help text  \npub static {a}: &str = \"Usage: calc EXPR  \n  second line\t\n\n   \n end \";"
+            );
+            syn::parse_str::<syn::Item>(&src).ok()?
+        }
         "const" => {
             let a = id("USER_CONST_");
             parse_quote! { pub const #a: usize = #n; }
